@@ -260,6 +260,10 @@ DIRECTED = [
     "handlers = [lambda *args, **kwargs: (args, kwargs), lambda first, second, /: first + second, lambda value, *rest, flag=None: (value, rest, flag)]\n",
     "def f():\n    from django.db.models import Q\n    from re import I, M\n    alpha=beta=gamma=delta=epsilon=zeta=eta=theta=iota=kappa=lam=mu=nu=xi=omicron=pi=rho=sigma=1\n    return [alpha,beta,gamma,delta,epsilon,zeta,eta,theta,iota,kappa,lam,mu,nu,xi,omicron,pi,rho,sigma,Q,I,M,alpha,beta,gamma,delta,epsilon,zeta,eta,theta,iota,kappa,lam,mu,nu,xi,omicron,pi,rho,sigma]\n",
     "x = 1\ndef f(x):\n    class C:\n        x = x\n    return C.x\nprint(f(10))\n",
+    "result = A.join(['hello world', 'hello world', 'hello world', 'hello world'])\nother = B('hello world') + C\n",
+    "def g():\n    return A, B, 'some repeated text', 'some repeated text', 'some repeated text', 'some repeated text'\nfirst_global = 1\nsecond_global = first_global + first_global\n",
+    'def gérer_événement(résumé, année_courante=1):\n    compteur_übersicht = résumé\n    return compteur_übersicht, année_courante\nrésumé = gérer_événement(1)\nñandú = résumé\nprint(ñandú)\n',
+    "limit = 3\nclass Outer:\n    limit = 'outer attribute'\n    len = 'not the builtin'\n    class Inner:\n        def run(self, values):\n            local_total = len(values) + limit\n            return local_total\nprint(Outer.Inner().run([1, 2]))\n",
     'def f():\n    size: int\n    def g():\n        nonlocal size\n        size = 1\n    g()\n    return [size for size in (size,)]\nprint(f())\n',
     'def f():\n    size: int\n    class C:\n        size = 0\n    def g():\n        nonlocal size\n        size = 2\n    g()\n    return size, C.size\nprint(f())\n',
     'def f():\n    total: int\n    count: int = 0\n    def g():\n        nonlocal total, count\n        total = 5\n        count += 1\n    g()\n    return total, count\nprint(f())\n',
